@@ -202,7 +202,21 @@ fn date(rng: &mut Rng, c: &Cfg, with_year: bool) -> String {
     }
 }
 
+/// day offsets of dated bounds beyond a year (the pairing windows of `MonthdayRange::Date` are centred
+/// on the year the bound has to come from; these offsets move it away from the evaluated day's year)
+fn big_day_offset(rng: &mut Rng) -> String {
+    let n = *rng.pick(&[366, 400, 500, 730, 770, 1100, 1500, 3000, 100000]);
+    format!(" {}{} days", if rng.chance(1, 2) { "+" } else { "-" }, n)
+}
+
 fn date_offset(rng: &mut Rng) -> String {
+    if rng.chance(1, 4) {
+        return if rng.chance(1, 3) {
+            format!("{}{}{}", if rng.chance(1, 2) { "+" } else { "-" }, WD[rng.below(7) as usize], big_day_offset(rng))
+        } else {
+            big_day_offset(rng)
+        };
+    }
     match rng.below(3) {
         0 => format!("{}{}", if rng.chance(1, 2) { "+" } else { "-" }, WD[rng.below(7) as usize]),
         1 => format!("{}{}{}", if rng.chance(1, 2) { "+" } else { "-" }, WD[rng.below(7) as usize], day_offset(rng)),
